@@ -221,6 +221,50 @@ def check_malformed(res):
     res.samples.append({'malformed': '@(a|b', 'means': '@\\(a\\|b'})
 
 
+RR_ITEMS = ['a', '^', '!', 'x', '[:digit:]', '.', '\\]', 'c-e', '|', '#', '~']
+
+
+def _rr_ref(item):
+    return item if len(item) > 1 else '\\' + item
+
+
+def check_reversed_ranges(res, part, parts, maxitems):
+    """A reversed range inside a bracket expression contributes nothing: `[<pre>z-y<post>]` has the language of the
+    bracket without it, whatever the neighbours are (in particular a `^` or `!` that thereby moves to the front stays a
+    literal).  Every item sequence up to `maxitems`, every insertion point, plain and negated, str and bytes; decided for
+    all names by the product of the two executed automata."""
+    k = 0
+    for n in range(1, maxitems + 1):
+        for items in itertools.product(RR_ITEMS, repeat=n):
+            for neg in ('', '!', '^'):
+                for pos in range(n + 1):
+                    if not neg and pos and items[0] in ('!', '^'):
+                        continue    # the tested text itself would start with the negation character
+                    k += 1
+                    if k % parts != part:
+                        continue
+                    tested = '[' + neg + ''.join(items[:pos]) + 'z-y' + ''.join(items[pos:]) + ']'
+                    ref = '[' + neg + ''.join(_rr_ref(it) for it in items) + ']'
+                    for isb in (False, True):
+                        res.n['evaluations'] += 1
+                        inp = {'mode': 'fn', 'pattern': enc(tested, isb), 'without_reversed_range': enc(ref, isb), 'flags': 'ED'}
+                        try:
+                            c = langcmp.equal(F.compile(enc(tested, isb), flags=F.EXTMATCH | F.DOTMATCH),
+                                              F.compile(enc(ref, isb), flags=F.EXTMATCH | F.DOTMATCH), isb)
+                        except Exception as e:  # noqa: BLE001
+                            res.add_violation(ID, run.viol('crash', dict(inp, call='compile', escaped_spelling=ref), 'compiles',
+                                                           {'exc': type(e).__name__, 'msg': str(e)[:80]}))
+                            continue
+                        res.n['states'] += c.states
+                        res.n['transitions'] += c.transitions
+                        res.n['distinct_nontrivial'] += 1
+                        res.outcomes.add('reversed-range-empty' if c.witness is None else 'reversed-range-not-empty')
+                        if c.witness is not None:
+                            res.add_violation(ID, run.viol('reversed-range-not-empty', dict(inp, name=c.witness),
+                                                           {'match': c.accs[1]}, {'match': c.accs[0]}))
+    res.samples.append({'reversed_range': '[z-y^a]', 'means': '[\\^\\a]'})
+
+
 # ---------------------------------------------------------------- generators
 
 REGEXY = ['(', ')', '+', 'se[rver', 'sh(are', 'a+', 'b|c', '(?#)', '(?:', '(?i)', '\\Z', '$', '^', '{1,2}', '(?P<n>', '#', '(?=', '\\b', '&&', '~~', '||', '--', '[:alpha:]', '[.a.]',
@@ -263,6 +307,8 @@ def plan(tier, seed):
         chunks.append(('mutations', sh, 16))
     chunks.append(('regexy',))
     chunks.append(('malformed',))
+    for part in range(8):
+        chunks.append(('revrange', part, 8, 3 if tier == 'quick' else 4))
     for a in ALPHA12:
         chunks.append(('walkers', ALPHA12, a, 3 if tier == 'quick' else 4))
     return {
@@ -317,6 +363,8 @@ def run_chunk(chunk):
             res.samples.append({'pattern': '[(?#)]'})
         elif kind == 'malformed':
             check_malformed(res)
+        elif kind == 'revrange':
+            check_reversed_ranges(res, chunk[1], chunk[2], chunk[3])
         elif kind == 'walkers':
             _k, alpha, pre, maxlen = chunk
             for L in range(1, maxlen + 1):
@@ -342,7 +390,7 @@ def replay(v):
             return {'violates': False, 'observed': 'compiles'}
         except Exception as e:  # noqa: BLE001
             return {'violates': True, 'observed': type(e).__name__}
-    if k in ('malformed-not-literal', 'reversed-range-matches', 'bash-disagrees'):
+    if k in ('malformed-not-literal', 'reversed-range-matches', 'bash-disagrees', 'reversed-range-not-empty'):
         mod = G if inp['mode'] == 'glob' else F
         fl = 0
         for ch in inp['flags']:
